@@ -100,8 +100,10 @@ func vfC04Enabled(chunkedX bool) func(hist []vfOp) []vfOp {
 			if !has["/lg"] {
 				out = append(out, vfOp{Op: "hardlink", Path: "/lg", Target: "/g"})
 			}
-			if !has["/g/s"] {
-				out = append(out, vfOp{Op: "mkds", Path: "/g/s", Type: "u8", Dims: []uint64{3}})
+			// a nested namesake of /x (same leaf name, same shape): a lookup that goes by the leaf
+			// name alone lands on it
+			if !has["/g/x"] {
+				out = append(out, vfOp{Op: "mkds", Path: "/g/x", Type: "i32", Dims: []uint64{4}})
 			}
 		}
 		return out
@@ -190,7 +192,7 @@ func TestVerif_C04(t *testing.T) {
 		{"sb0/contiguous-x", []interface{}{WithSuperblockVersion(SuperblockV0)}, false},
 		{"sb3/chunked-x", []interface{}{WithSuperblockVersion(SuperblockV3)}, true},
 	}
-	r.Rule(fmt.Sprintf("every sequence of enabled operations up to depth %d over {create X,Y,G,G/s; write X,Y; attribute on X (4B and 120B), Y, G; delete attribute on X; hard link to X, to G; resize X} per configuration; one execution of the real FileWriter per sequence, dump before/after compared for every object not aimed at; a case is non-trivial when at least one other object existed before the operation", depth))
+	r.Rule(fmt.Sprintf("every sequence of enabled operations up to depth %d over {create X,Y,G,G/x (a nested namesake of X); write X,Y; attribute on X (4B and 120B), Y, G; delete attribute on X; hard link to X, to G; resize X} per configuration; one execution of the real FileWriter per sequence, dump before/after compared for every object not aimed at; a case is non-trivial when at least one other object existed before the operation", depth))
 	// start states: empty file; X one attribute short of the compact->dense transition with
 	// Y and G already behind it in the file; X already in dense storage.
 	mkStart := func(chunked bool, nattr int) []vfOp {
